@@ -1,8 +1,22 @@
+# part 0: histories through the real AnalyzeData/PublishData/writers, files decoded (engine A)
+_MAIN = {
+    "pkg": ".", "hdir": "dastard", "harness": DASTARD_COMMON + ["zz_verif_files_test.go", "zz_verif_c05_test.go"], "test": "TestVerifC05",
+    "engines": ["vexp"],
+    "quick": T(16, 60), "thorough": T(16, 600),
+    "env": {"VERIF_C05_SCRATCH": "/dev/shm"},
+}
+# part 1: back-pressure (writer queue nearly full) under the controlled scheduler, same scenarios as C07 at a smaller bound
+_BP = {
+    "pkg": ".", "hdir": "dastard", "harness": DASTARD_COMMON + ["zz_verif_files_test.go", "zz_verif_c07_test.go"], "test": "TestVerifC05BP",
+    "engines": ["vexp", "vhook"], "runtime_patch": True, "gomaxprocs": 1,
+    "instrument": {"files": {"asyncbufio/asyncbufio.go": {}}},
+    "textpatch": [{"file": "ljh/ljh.go", "old": "const WRITECHANCAPACITY = 1000", "new": "var WRITECHANCAPACITY = 1000"},
+                  {"file": "off/off.go", "old": "const WRITECHANCAPACITY = 1000", "new": "var WRITECHANCAPACITY = 1000"}],
+    "quick": T(16, 30), "thorough": T(16, 300),
+}
 ENTRY = {
-    "C05": {
-        "pkg": ".", "hdir": "dastard", "harness": DASTARD_COMMON + ["zz_verif_files_test.go", "zz_verif_c05_test.go"], "test": "TestVerifC05",
-        "quick": T(16, 60), "thorough": T(16, 600),
-        "env": {"VERIF_C05_SCRATCH": "/dev/shm"},
+    "C05": dict(_MAIN, **{
+        "parts": [_MAIN, _BP],
         "rule": "one execution = one history {record ch0, record ch1, flush, PAUSE, UNPAUSE, STOP+START with the next file-type set} between an initial START and a final STOP on a "
                 "2-channel source with non-trivial identity (names, numbers, row/column codes, sub-frame divisions/offsets, sample rate, decimation; channel 0 with 1xn or 2xn "
                 "projectors), every record pushed through the real AnalyzeData + PublishData; after the final STOP (and two more records that must land nowhere) every file of every "
@@ -18,8 +32,8 @@ ENTRY = {
                         "a record whose length differs from the channel's record length (channel 1, no projectors) is not 'accepted' by LJH 2.2 (fixed-length format) but is by LJH 3",
                         "LJH time stamps = floor(UnixNano/1000); time stamps stay inside 1971..2200",
                         "projector/basis matrices are compact (as produced by the RPC path's UnmarshalBinary), not strided views",
-                        "names are newline-free; requests issued directly on the source (RPC queueing is C11); writer queue overflow (more than ~333 records between two writer wake-ups) is "
-                        "scheduling dependent and not modelled",
+                        "names are newline-free; requests issued directly on the source (RPC queueing is C11); writer queue overflow is explored in the back-pressure part at queue depths 2..9 "
+                        "(the constant 1000 made settable), with the writers driven directly",
                         "LJH 3 and OFF layouts as fixed in the property brief (no format document in the repository)"],
-    },
+    }),
 }
